@@ -205,23 +205,47 @@ def run(ctx):
                          "template A(n) { signal input x; signal output y; var t = n; if (n) { var t = 2; y <== x * t; } else { y <== x; } component b = B(n); }\n"
                          "template B(n) { signal input x; signal output y; var u = n; { var u = 3; y <== x * u; } component a = A(n); }\n", 2))
         # a user identifier spelled like a name the desugaring invents (`<Template>_<line>_<offset>`; the file must not be reformatted,
-        # the offset is part of the name): declared once, so no shadowing (known finding F-C10-generated-names)
+        # the offset is part of the name): declared once, so no shadowing (F-C10-generated-names, repaired by add4a3b: the generated names are no identifiers)
         projects.append(("generated-name", "pragma circom 2.1.0;\n\ntemplate Sq() {\n    signal input in;\n    signal output out;\n    out <== in * in;\n}\n\n"
                          "template T(n) {\n    signal input a;\n    signal output b;\n    b <== Sq()(a);\n    if (n > 0) {\n        var Sq_12_173 = n;\n"
                          "        log(Sq_12_173);\n    }\n}\ncomponent main = T(1);\n", 0))
+        # ... declared in an inner block in front of the call, and read afterwards: the statements desugaring generates bound to the
+        # user's variable, whose value was then claimed never to be read (review 'latest2' f1)
+        projects.append(("generated-name-inner", "pragma circom 2.1.0;\ntemplate Two() {\n    signal input a;\n    signal input b;\n    signal output p;\n    p <== a * b;\n}\n"
+                         "template T(n) {\n    signal input x;\n    signal output y;\n    signal output z;\n    if (n > 0) {\n        var Two_14_255 = 7;\n"
+                         "        y <== Two()(a <== x, b <== x);\n        z <== x * Two_14_255;\n    }\n}\n", 0))
+        # the same programs with the variable spelled differently (same length): the findings must be the same
+        controls = {"generated-name": ("Sq_12_173", "Sx_12_173"), "generated-name-inner": ("Two_14_255", "Twx_14_255")}
+        for kind, text, nshadow in list(projects):
+            if kind in controls:
+                projects.append((kind + "-control", text.replace(*controls[kind]), nshadow))
         reqs3, metas3 = [], []
         for j, (kind, text, nshadow) in enumerate(projects):
             p = wd.write("proj%d.circom" % j, text)
             for rep_i in range(4):
                 reqs3.append({"inputs": [p], "libs": [], "curve": "BN254"})
                 metas3.append((kind, text, nshadow))
+        all3 = {}
         for (kind, text, nshadow), rep in zip(metas3, vlib.analyze(reqs3)):
+            base_kind = kind[:-len("-control")] if kind.endswith("-control") else kind
+            if base_kind in controls and "crash" not in rep:
+                a, b = controls[base_kind]
+                all3.setdefault(base_kind, {})[kind] = sorted((r["id"], r["message"].replace(a, "NAME").replace(b, "NAME"),
+                                                               tuple(sorted((l["start"], l["end"]) for l in r["primary"]))) for r in vlib.reports_of(rep))
             got = len([r for r in vlib.reports_of(rep) if r["id"] == "CS0001"])
             stats["multi-template runs (%s)" % kind] += 1
             if got != nshadow:
                 l1 += 1
                 ctx.violation("shadow-reports-project %s" % kind, {"stage": "L1 shadowing warnings displayed for every template of a project", "files": {"main.circom": text},
                                                                    "specified_count": nshadow, "displayed_count": got, "broken": None})
+        for base_kind, d in sorted(all3.items()):
+            stats["generated-name programs compared with their respelling"] += 1
+            if d.get(base_kind) != d.get(base_kind + "-control"):
+                l1 += 1
+                text = [t for k, t, _ in projects if k == base_kind][0]
+                ctx.violation("shadow-reports-project %s respelled" % base_kind,
+                              {"stage": "L1 the findings do not depend on how a variable that is declared once is spelled", "files": {"main.circom": text},
+                               "name": controls[base_kind][0], "respelled": controls[base_kind][1], "findings": d.get(base_kind), "findings_respelled": d.get(base_kind + "-control"), "broken": None})
     # ---- names only matter through scoping: two declarations in scopes that do not overlap may share a spelling or not — every other
     #      finding of the definition (same report, same place) must be the same (audit C10 f1: a pass that remembers reported
     #      variables by their spelling dropped the finding about the second declaration)
